@@ -31,7 +31,7 @@ COMPONENTS = {
     'stub': ['SimPool (bamBinCounts.multiprocessing): seeded start/complete/deliver order, pool width'],
 }
 ISOLATE = True      # bamBinCounts is called inside the worker: every case runs in a forked child (module-level state cannot travel between cases)
-REQUIRED_PROBES = ['other_configuration_in_same_process', 'records_sharing_a_query_name', 'file_rewritten_and_counted_again', 'several_bam_files', 'site_on_job_boundary', 'site_owned_by_other_job_than_read_start', 'multi_job', 'delivery_order_not_submission_order', 'filtered_record']
+REQUIRED_PROBES = ['second_file_has_an_extra_contig', 'other_configuration_in_same_process', 'records_sharing_a_query_name', 'file_rewritten_and_counted_again', 'several_bam_files', 'site_on_job_boundary', 'site_owned_by_other_job_than_read_start', 'multi_job', 'delivery_order_not_submission_order', 'filtered_record']
 
 
 def plan(tier):
@@ -114,6 +114,17 @@ def generate(seed, tier):
         # several libraries counted together (generate_commands accepts a list of BAMs, as bamCopyNumber passes it); cells are disjoint between files
         'split_files': w.random() < 0.25,
     }
+    if params['split_files'] and ncell >= 2 and w.random() < 0.5:
+        # the libraries were not mapped against exactly the same reference: the second file's header has one more contig (a spike-in) with records
+        xl = w.randint(2, 6) * bin_size - w.choice([0, 1, bin_size // 2])
+        contigs.append([f'c{nctg}', max(xl, 5)])
+        params['extra_contig_in_second_file'] = True
+        odd = [c for c in range(ncell) if c % 2 == 1]
+        for n in range(len(recs), len(recs) + w.randint(1, 8)):
+            rl = w.randint(1, min(50, contigs[-1][1]))
+            start = w.randint(0, contigs[-1][1] - rl)
+            recs.append({'n': n, 'cell': w.choice(odd), 'ctg': nctg, 'start': start, 'len': rl, 'ds': min(contigs[-1][1] - 1, start + w.randint(0, min(mfs, rl))),
+                         'rev': False, 'r1': True, 'paired': False, 'qcfail': False, 'dup': False, 'mq': 60, 'mp': None, 'da': w.choice([None, 'a', 'b']), 'sm': True})
     configs = []
     for bpj in bpj_all:
         configs.append({'bins_per_job': bpj, 'threads': st.schedule.randint(1, 8),
@@ -225,7 +236,10 @@ def execute(case):
         bam_arg = bam
         if params.get('split_files') and len({r['cell'] for r in recs}) >= 2:
             b0, b1 = os.path.join(d, 'lib0.bam'), os.path.join(d, 'lib1.bam')
-            write_bam(b0, params['contigs'], [r for r in recs if r['cell'] % 2 == 0 and r['sm']])
+            c0 = params['contigs'][:-1] if params.get('extra_contig_in_second_file') else params['contigs']
+            if params.get('extra_contig_in_second_file'):
+                probe('second_file_has_an_extra_contig')
+            write_bam(b0, c0, [r for r in recs if r['cell'] % 2 == 0 and r['sm']])
             write_bam(b1, params['contigs'], [r for r in recs if not (r['cell'] % 2 == 0 and r['sm'])])
             if all((r['cell'] % 2 == 1) for r in recs if not r['sm']) or True:
                 # records without SM count as 'bulk': keep them all in one file so that samples stay disjoint between files
